@@ -180,6 +180,11 @@ fn verif_root() -> PathBuf {
 impl Ctx {
     /// Parse `--tier`, `--replay`, env `VERIF_TIER`, `VERIF_SEED`.
     pub fn from_env(id: &'static str) -> Self {
+        Self::from_env_caps(id, 40, 1500)
+    }
+
+    /// Like `from_env` with this check's own default wall caps (seconds) for the two tiers.
+    pub fn from_env_caps(id: &'static str, quick_cap_s: u64, thorough_cap_s: u64) -> Self {
         let mut tier = match std::env::var("VERIF_TIER").as_deref() {
             Ok("thorough") => Tier::Thorough,
             _ => Tier::Quick,
@@ -243,8 +248,8 @@ impl Ctx {
             .ok()
             .and_then(|s| s.parse().ok())
             .unwrap_or(match tier {
-                Tier::Quick => 40,
-                Tier::Thorough => 1500,
+                Tier::Quick => quick_cap_s,
+                Tier::Thorough => thorough_cap_s,
             });
         let threads = std::env::var("VERIF_THREADS")
             .ok()
@@ -389,7 +394,10 @@ impl Ctx {
                             break;
                         }
                         if Instant::now() >= self.deadline && self.replay.is_none() {
-                            capped.store(true, Ordering::Relaxed);
+                            // only a cap if cases are left that nobody has taken
+                            if next.load(Ordering::Relaxed) < hi {
+                                capped.store(true, Ordering::Relaxed);
+                            }
                             break;
                         }
                         let a = next.fetch_add(chunk, Ordering::Relaxed);
@@ -927,7 +935,9 @@ impl Ctx {
                     let pf = tmp.join(format!("{}-{}-{t}.idx", self.id, std::process::id()));
                     loop {
                         if Instant::now() >= self.deadline {
-                            capped.store(true, Ordering::Relaxed);
+                            if next.load(Ordering::Relaxed) < total {
+                                capped.store(true, Ordering::Relaxed);
+                            }
                             break;
                         }
                         // the simplest cases come first and are where corner values cluster: hand them out in pairs
